@@ -1033,7 +1033,7 @@ def run_programs(prop, tag, items):
         if tag == 'py' and prop == 'C09' and 1 <= L <= 3:
             n += compose_history(pk, T, N, letters, ins, vio)
             extra['cfg_compose-then-take'] = extra.get('cfg_compose-then-take', 0) + 1
-        if prop == 'C09' and 1 <= L <= 3:
+        if prop == 'C09' and 1 <= L <= (3 if tag == 'py' else 2):
             n += copy_history(pk, T, N, letters, ins, vio)
             extra['cfg_compiled-copy-extend-other'] = extra.get('cfg_compiled-copy-extend-other', 0) + 1
         if tag == 'py' and L >= 2:
